@@ -385,10 +385,91 @@ class ItertoolsModel(Model):
 
 
 class ComprehensionModel(Model):
-    """[Ctor(...) for _ in range(n)]: a list of n distinct fresh objects."""
+    """[Ctor(...) for _ in range(n)]: a list of n distinct fresh objects.
+    (f(x) for x in xs) with f under contract returning a new object: a list
+    of len(xs) distinct fresh objects, element i satisfying f's postcondition
+    for argument xs[i]."""
+
+    def map_contract(self, st, node, kind):
+        eng = self.eng
+        g = node.generators[0]
+        elt = node.elt
+        if not (isinstance(elt, ast.Call) and isinstance(elt.func, ast.Name)
+                and isinstance(g.target, ast.Name) and len(elt.args) == 1
+                and isinstance(elt.args[0], ast.Name)
+                and elt.args[0].id == g.target.id and not elt.keywords):
+            return None
+        fc = eng.reg.find_function(eng.imports.get(elt.func.id,
+                                                   elt.func.id).split(".")[-1])
+        if fc is None or not (fc.returns or "").startswith("ref:") or \
+                fc.modifies:
+            return None
+        src = eng.eval(st, g.iter)
+        if not isinstance(src, VList):
+            return None
+        cls = fc.returns[4:]
+        n = src.n
+        base = st.next_ref
+        nr = st.fresh("next_ref", IntS)
+        st.assume(nr >= base + z3.If(n > 0, n, 0))
+        st.next_ref = nr
+        arr = st.fresh("mc_arr", z3.ArraySort(IntS, IntS))
+        i = z3.Const("i!mc", IntS)
+        j = z3.Const("j!mc", IntS)
+        st.assume(z3.ForAll([i], z3.Implies(z3.And(0 <= i, i < n), z3.And(
+            arr[i] >= base, arr[i] < nr))))
+        st.assume(z3.ForAll([i, j], z3.Implies(
+            z3.And(0 <= i, i < j, j < n), arr[i] != arr[j])))
+        # fields of the new objects: havoc above `base`, frame below
+        fields = set()
+        for cl in fc.ensures:
+            for nd in ast.walk(eng.spec_parse(cl.text)):
+                if isinstance(nd, ast.Attribute) and isinstance(
+                        nd.value, ast.Name) and nd.value.id == "result":
+                    fields.add(nd.attr)
+        keys = []
+        for f_ in sorted(fields):
+            k_, shp = eng.field_key(cls, f_)
+            if not any(h == k_ or h.startswith(k_ + "#") for h in st.heap):
+                eng._materialise(st, k_, shp)
+            keys.append(k_)
+        pre = dict(st.heap)
+        eng.havoc_heap(st, keys)
+        r = z3.Const("r!mc", IntS)
+        for k in list(st.heap):
+            if any(k == k_ or k.startswith(k_ + "#") for k_ in keys):
+                st.assume(z3.ForAll([r], z3.Implies(r < base,
+                                                    st.heap[k][r] == pre[k][r])))
+        # postcondition of f for every element
+        pname = list(fc.params)[0] if fc.params else None
+        saved = st.locals
+        st.locals = dict(saved)
+        st.locals["result"] = VRef(arr[i], cls)
+        if pname:
+            st.locals[pname] = wrap(src.eshape, src.arr[i])
+        try:
+            conj = [eng.spec_bool(st, cl) for cl in fc.ensures]
+        finally:
+            st.locals = saved
+        if conj:
+            st.assume(z3.ForAll([i], z3.Implies(z3.And(0 <= i, i < n),
+                                                z3.And(conj))))
+        return VList(arr, n, "ref:" + cls)
+
+    def tuple_of(self, st, v, line):
+        if isinstance(v, VList):
+            return v
+        if isinstance(v, VStream) and getattr(v, "aslist", None) is not None:
+            return v.aslist
+        return None
 
     def comprehension(self, st, node, kind):
         eng = self.eng
+        if kind in ("list", "gen") and len(node.generators) == 1 and \
+                not node.generators[0].ifs:
+            r = self.map_contract(st, node, kind)
+            if r is not None:
+                return r
         if kind != "list" or len(node.generators) != 1:
             return None
         g = node.generators[0]
@@ -730,3 +811,263 @@ class JsonModel(Model):
 
 
 ALL = ALL + [DictIterModel, DictObjModel, JsonModel]
+
+
+# ---------------------------------------------------------------------------
+FLEN = z3.Function("FLEN", U, IntS)          # length in bytes of a content
+HEX = z3.Function("HEX", U, U, IntS, U)     # HEX(alg, content, n): hex digest of the first n bytes
+FRESHNAME = z3.Function("FRESHNAME", U, BoolS)
+PPARENT = z3.Function("PPARENT", U, U)
+PNAME = z3.Function("PNAME", U, U)
+
+
+class IOModel(Model):
+    """Files and hashes (A-IO, A-HASH, A-FS).
+
+    open(p, 'rb')   -> FileObj(content = DISK[p], pos = 0); FileNotFoundError
+                       unless p is complete
+    f.readinto(mv)  -> n with 0 <= n <= min(len(mv), flen - pos), n == 0 iff
+                       pos == flen; mv[:n] = content[pos : pos + n]
+    h.update(mv[:i])-> h has been fed exactly a longer prefix iff it had been
+                       fed content[:off] and the view holds content[off:off+n],
+                       i <= n
+    h.hexdigest()   -> HEX(alg, content, fed_len) for a hash fed a prefix
+    open(p, 'w')    -> obligation: p does not exist (never truncate a file that
+                       may be referenced); p is partial until the with-block
+                       is left (close); write(s) sets the pending content
+    p.replace(q)    -> obligation: p is complete (closed); q becomes complete
+                       with p's content atomically, p disappears
+    """
+
+    def axioms(self):
+        c = z3.Const("c!io", U)
+        c2 = z3.Const("c2!io", U)
+        a = z3.Const("a!io", U)
+        return [z3.ForAll([c], FLEN(c) >= 0),
+                # the digest of the empty prefix does not depend on the file
+                z3.ForAll([a, c, c2], HEX(a, c, 0) == HEX(a, c2, 0),
+                          patterns=[z3.MultiPattern(HEX(a, c, 0),
+                                                    HEX(a, c2, 0))])]
+
+    def _fs(self):
+        for m in self.ext.models:
+            if type(m).__name__ == "DiskModel":
+                return m
+
+    def call_global(self, st, name, node):
+        eng = self.eng
+        if name == "open":
+            args, kwargs = eng.eval_args(st, node)
+            path = eng.coerce(st, args[0], "U")
+            mode = args[1] if len(args) > 1 else kwargs.get("mode")
+            m = mode.lit if isinstance(mode, VU) and mode.lit else "r"
+            self._fs()._facts(st)
+            f = eng.alloc(st, "FileObj")
+            eng.store_field(st, f, "path", VU(path))
+            eng.store_field(st, f, "writing", VBool("w" in m or "a" in m))
+            if "w" in m:
+                ds = st.ghost["DSTATE"]
+                # C06: a file that exists is never opened for (truncating) write
+                eng.oblige(st, "open-for-write-is-fresh", node.lineno,
+                           ds[path] == 0, ["C06"])
+                st.ghost["DSTATE"] = z3.Store(ds, path, z3.IntVal(1))
+                st.ghost["FXN"] = VInt(st.ghost["FXN"].t + 1)
+                eng.store_field(st, f, "content", VU(eng.strconst("")))
+                eng.store_field(st, f, "pos", VInt(0))
+            else:
+                ds = st.ghost["DSTATE"]
+                eng.require(st, ds[path] == 2, "FileNotFoundError",
+                            node.lineno)
+                eng.store_field(st, f, "content", VU(st.ghost["DISK"][path]))
+                eng.store_field(st, f, "pos", VInt(0))
+            return f
+        if name == "memoryview":
+            v = eng.eval(st, node.args[0])
+            mv = eng.alloc(st, "MemView")
+            n = v.t if isinstance(v, VInt) else st.fresh("mvlen", IntS)
+            eng.store_field(st, mv, "size", VInt(n))
+            eng.store_field(st, mv, "src", VU(NONE_U))
+            eng.store_field(st, mv, "off", VInt(0))
+            eng.store_field(st, mv, "n", VInt(0))
+            return mv
+        if name == "bytearray":
+            v = eng.eval(st, node.args[0])
+            return v  # only its length matters (passed on to memoryview)
+        return NotImplemented
+
+    def ctx_enter(self, st, ctx, line):
+        if isinstance(ctx, VRef) and ctx.cls == "FileObj":
+            return ctx
+        return None
+
+    def ctx_exit(self, st, ctx, ex, line):
+        if isinstance(ctx, VRef) and ctx.cls == "FileObj":
+            eng = self.eng
+            w = eng.load_field(st, ctx, "writing")
+            if z3.is_true(z3.simplify(w.t)):
+                path = eng.load_field(st, ctx, "path").t
+                content = eng.load_field(st, ctx, "content").t
+                # close: the file is complete with what was written
+                st.ghost["DSTATE"] = z3.Store(st.ghost["DSTATE"], path,
+                                              z3.IntVal(2))
+                st.ghost["DISK"] = z3.Store(st.ghost["DISK"], path, content)
+                st.ghost["FXN"] = VInt(st.ghost["FXN"].t + 1)
+            return "propagate"
+        return None
+
+    def call_ref_method(self, st, recv, name, node):
+        eng = self.eng
+        E = self.E
+        if recv.cls == "FileObj":
+            if name == "readinto":
+                mv = eng.eval(st, node.args[0])
+                content = eng.load_field(st, recv, "content").t
+                pos = eng.load_field(st, recv, "pos").t
+                size = eng.load_field(st, mv, "size").t
+                n = st.fresh("nread", IntS)
+                flen = FLEN(content)
+                st.assume(z3.And(n >= 0, n <= size, n <= flen - pos))
+                st.assume((n == 0) == z3.Or(pos >= flen, size == 0))
+                eng.store_field(st, mv, "src", VU(content))
+                eng.store_field(st, mv, "off", VInt(pos))
+                eng.store_field(st, mv, "n", VInt(n))
+                eng.store_field(st, recv, "pos", VInt(pos + n))
+                return VInt(n)
+            if name == "write":
+                v = eng.eval(st, node.args[0])
+                eng.store_field(st, recv, "content",
+                                VU(eng.coerce(st, v, "U")))
+                return VNone()
+            if name == "read":
+                content = eng.load_field(st, recv, "content")
+                return content
+        if recv.cls == "HashObj":
+            if name == "update":
+                chunk = eng.eval(st, node.args[0])
+                if isinstance(chunk, VRef) and chunk.cls == "MemView":
+                    # the whole buffer, whatever part of it was filled
+                    chunk = VTuple([chunk, VInt(0),
+                                    eng.load_field(st, chunk, "size")])
+                if not isinstance(chunk, VTuple) or len(chunk.items) != 3:
+                    raise E.Unsupported("hash.update of this value")
+                mv, lo, hi = chunk.items
+                src = eng.load_field(st, mv, "src").t
+                off = eng.load_field(st, mv, "off").t
+                n = eng.load_field(st, mv, "n").t
+                fed_len = eng.load_field(st, recv, "fed_len").t
+                fed_src = eng.load_field(st, recv, "fed_src").t
+                good = eng.load_field(st, recv, "fed_good").t
+                k = hi.t - lo.t
+                ok = z3.And(good, lo.t == 0, hi.t >= 0, hi.t == n,
+                            z3.Or(fed_len == 0, fed_src == src),
+                            fed_len == off)
+                eng.store_field(st, recv, "fed_good", VBool(z3.simplify(ok)))
+                eng.store_field(st, recv, "fed_src", VU(src))
+                eng.store_field(st, recv, "fed_len", VInt(fed_len + k))
+                return VNone()
+            if name == "hexdigest":
+                alg = eng.load_field(st, recv, "alg").t
+                fed_len = eng.load_field(st, recv, "fed_len").t
+                fed_src = eng.load_field(st, recv, "fed_src").t
+                good = eng.load_field(st, recv, "fed_good").t
+                bad = z3.Function("BADHEX", U, U, IntS, U)
+                return VU(z3.If(good, HEX(alg, fed_src, fed_len),
+                                bad(alg, fed_src, fed_len)))
+        return NotImplemented
+
+    def slice(self, st, obj, lo, hi, line):
+        if isinstance(obj, VRef) and obj.cls == "MemView":
+            l_ = lo if lo is not None else VInt(0)
+            if hi is None:
+                raise self.E.Unsupported("memoryview[a:]")
+            return VTuple([obj, l_, hi])
+        return None
+
+    def call_dotted(self, st, d, node):
+        eng = self.eng
+        if d in ("xxhash.xxh32", "xxhash.xxh64", "xxhash.xxh128"):
+            return self.new_hash(st, VU(eng.strconst(d.split(".")[1])))
+        if d == "hashlib.new":
+            return self.new_hash(st, eng.eval(st, node.args[0]))
+        if d == "uuid.uuid4":
+            t = st.fresh("uuid", U)
+            st.assume(FRESHNAME(t))
+            return VU(t)
+        return NotImplemented
+
+    def new_hash(self, st, alg):
+        eng = self.eng
+        h = eng.alloc(st, "HashObj")
+        eng.store_field(st, h, "alg", alg)
+        eng.store_field(st, h, "fed_len", VInt(0))
+        eng.store_field(st, h, "fed_src", VU(NONE_U))
+        eng.store_field(st, h, "fed_good", VBool(True))
+        return h
+
+    def getattr(self, st, obj, attr, line):
+        if isinstance(obj, VU):
+            if attr == "hex":
+                t = st.fresh("hexname", U)
+                st.assume(FRESHNAME(t) == FRESHNAME(obj.t))
+                return VU(t)
+            if attr == "parent":
+                return VU(PPARENT(obj.t))
+            if attr == "name":
+                return VU(PNAME(obj.t))
+        return None
+
+    def call_other_method(self, st, recv, name, node):
+        eng = self.eng
+        if isinstance(recv, VU) and name == "replace" and len(node.args) == 1:
+            dst = eng.coerce(st, eng.eval(st, node.args[0]), "U")
+            src = recv.t
+            ds = st.ghost["DSTATE"]
+            # C06: only a completely written (closed) file is renamed into place
+            eng.oblige(st, "rename-source-complete", node.lineno,
+                       ds[src] == 2, ["C06"])
+            disk = st.ghost["DISK"]
+            st.ghost["DISK"] = z3.Store(disk, dst, disk[src])
+            ds = z3.Store(ds, dst, z3.IntVal(2))
+            st.ghost["DSTATE"] = z3.Store(ds, src, z3.IntVal(0))
+            st.ghost["FXN"] = VInt(st.ghost["FXN"].t + 1)
+            return VNone()
+        return NotImplemented
+
+    def iter_sentinel(self, st, node):
+        """iter(callable, sentinel)"""
+        eng = self.eng
+        f = eng.eval(st, node.args[0])
+        sent = eng.eval(st, node.args[1])
+        v = VFunc(name="iter_sentinel")
+        v.fn = f
+        v.sentinel = sent
+        return v
+
+    def for_source(self, st, node, srcv, K, stop):
+        if isinstance(srcv, VFunc) and srcv.name == "iter_sentinel":
+            eng = self.eng
+            line = node.lineno
+
+            def pull():
+                fn = srcv.fn
+                if isinstance(fn, VFunc) and isinstance(fn.bound, ast.Lambda):
+                    if fn.bound.args.args:
+                        raise self.E.Unsupported("iter(callable) with args")
+                    v = eng.eval(st, fn.bound.body)
+                else:
+                    raise self.E.Unsupported("iter(callable, sentinel)")
+                if st.branch(eng.equal(st, v, srcv.sentinel),
+                             f"iter-sentinel@{line}"):
+                    stop()
+                return v
+            return pull
+        return None
+
+
+class FStringNames(Model):
+    """An f-string with a fresh (uuid) component is a fresh name; a path whose
+    last component is fresh does not exist yet (A-STD uuid)."""
+    pass
+
+
+ALL = ALL + [IOModel]
